@@ -69,7 +69,9 @@ V12_TAGS = ["V12_sections.encode_tags.*", "V12_sections.fn:Module::encode_tags"]
 V12_ELEMS = ["V12_sections.encode_elements.every_segment_in_order_with_the_images_of_its_references", "V12_sections.fn:Module::encode_elements"]
 V10_PARSE_SECTIONS = ["V10_parse.parse_tag_section.*", "V10_parse.fn:parse_tag_section", "V10_parse.parse_export_section.*", "V10_parse.fn:parse_export_section", "V10_parse.Export.from.*", "V10_parse.fn:Export as From::from",
                       "V10_parse.parse_element_section.*", "V10_parse.fn:parse_element_section", "V10_parse.ElementKind.from_wasmparser.*", "V10_parse.fn:ElementKind::from_wasmparser",
-                      "V10_parse.ElementItems.from_wasmparser.*", "V10_parse.fn:ElementItems::from_wasmparser", "V10_parse.fn:Element::new", "V10_parse.fn:lemma_first_err", "V10_parse.fn:lemma_first_err_le", "V10_parse.fn:lemma_first_bad_elem"]
+                      "V10_parse.ElementItems.from_wasmparser.*", "V10_parse.fn:ElementItems::from_wasmparser", "V10_parse.fn:Element::new", "V10_parse.fn:lemma_first_err", "V10_parse.fn:lemma_first_err_le", "V10_parse.fn:lemma_first_bad_elem",
+                      "V10_parse.parse_import_section.*", "V10_parse.fn:parse_import_section", "V10_parse.ModuleImports.new.*", "V10_parse.fn:ModuleImports::new", "V10_parse.fn:Import as From::from",
+                      "V10_parse.fn:Import::is_*", "V10_parse.fn:lemma_n_of_le"]
 V12_CUSTOM = ["V12_sections.encode_custom_sections.*", "V12_sections.fn:Module::encode_custom_sections", "V12_sections.fn:CustomSections::iter"]
 V12_TRUST = ["TRUSTED model of the wasm-encoder section builders (V12): an export / data / custom section under construction is the sequence of entries handed to it; ExportKind::from(ExternalKind) is faithful; InitExpr::to_wasmencoder_type is faithful (numeric constants: Kani K4)",
              "V12 names three expressions of the data loop and one statement of the custom-section loop by rule R11 (iterator adapters / generic builders are outside Verus): their contracts are assumed; V12 assumes the InitInstr::fix_id_mapping contract that V3 proves",
@@ -86,7 +88,7 @@ PROPS = {
         "kani": ["k1_valtype_roundtrip", "k1_valtype_roundtrip_exn_cont", "k1_valtype_encoder_matches_upstream"],
         "obligations": ["K:k1_*", "V9b_conv.*.into_wasmparser.*", "V9b_conv.fn:* as From::from"],
         "obligations_extra": V12_TAGS + V12_TABLES + V12_ELEMS + V12_CEXPR + V10_PARSE_SECTIONS,
-        "glue": ["of Module::parse_internal only the tag, export and element arms are under contract (V10, against a trusted model of the section readers); of Module::encode_internal the tag, table and element sections are (V12 regions: every stored tag / table / element segment is re-emitted in order with its own kind, type and contents; wasm-encoder's section builders and the heap-type re-encoding are TRUSTED models), the other sections are claimed by the properties they matter for; `passes validation` is a predicate of wasmparser's validator over bytes produced there: not decided",
+        "glue": ["of Module::parse_internal only the import, tag, export and element arms are under contract (V10, against a trusted model of the section readers); of Module::encode_internal the tag, table and element sections are (V12 regions: every stored tag / table / element segment is re-emitted in order with its own kind, type and contents; wasm-encoder's section builders and the heap-type re-encoding are TRUSTED models), the other sections are claimed by the properties they matter for; `passes validation` is a predicate of wasmparser's validator over bytes produced there: not decided",
                  "profile of K1: numeric and vector types, unshared abstract heap types, concrete module type indices < 2^20; `shared` heap types and RecGroup/Id indices are outside it"],
         "design_ref": "DESIGN.md §4 K1, §5 C01",
         "level_text": "The library's own type-conversion layer and the re-emission of the tag, table and element sections: every value type of the profile survives ValType -> DataType -> ValType unchanged and is re-emitted as exactly the wasm-encoder type upstream's re-encoder produces (Kani, complete over the profile); heap-type and block-type conversions are proved exact (Verus).",
@@ -99,10 +101,10 @@ PROPS = {
         "kani": ["k1_valtype_roundtrip", "k1_valtype_roundtrip_exn_cont", "k1_valtype_encoder_matches_upstream", "k4_v128_bytes_preserved", "k4_ieee32_from_float_bits", "k4_ieee64_from_float_bits"],
         "obligations": ["K:k1_*", "K:k4_*", "V3_remap.lemma.identity_remap_is_noop", "V3_remap.fn:lemma_identity_remap_is_noop", "V3_remap.fix_op_id_mapping.*", "V3_remap.fn:fix_op_id_mapping", "V3_remap.update_*", "V3_remap.fn:update_*", "V3_remap.refers_to_*", "V3_remap.fn:refers_to_*",
                         "V9b_conv.*.into_wasmparser.*", "V9b_conv.fn:* as From::from"],
-        "glue": V11_TRUST + V12_TRUST + ["of parse_internal the tag, export and element arms are regions under contract (V10: the IR holds exactly the entries the section reader yields, in order, with their own contents, and a read error anywhere - also in an element segment's own item reader - makes the parse fail), against a TRUSTED model of wasmparser's section readers (a reader denotes a finite sequence of entries / read errors and iterating yields it front to back; `collect` of a reader is ASSUMED to gather it); the other arms are iterator-adapter chains (`.map(closure).collect::<Result<..>>()?`) and are NOT under contract; of encode_internal every section's emission loop is a region under contract (V11 / V12) against TRUSTED models of wasm-encoder's section builders; that the sections are appended to the module in the standard order, and the `if !..is_empty()` guards around them, are read off the text",
+        "glue": V11_TRUST + V12_TRUST + ["of parse_internal the import, tag, export and element arms are regions under contract (the import arm with ModuleImports::new: each counter is the number of imports of its kind, nothing counted as added) (V10: the IR holds exactly the entries the section reader yields, in order, with their own contents, and a read error anywhere - also in an element segment's own item reader - makes the parse fail), against a TRUSTED model of wasmparser's section readers (a reader denotes a finite sequence of entries / read errors and iterating yields it front to back; `collect` of a reader is ASSUMED to gather it); the other arms are iterator-adapter chains (`.map(closure).collect::<Result<..>>()?`) and are NOT under contract; of encode_internal every section's emission loop is a region under contract (V11 / V12) against TRUSTED models of wasm-encoder's section builders; that the sections are appended to the module in the standard order, and the `if !..is_empty()` guards around them, are read off the text",
                  "InitExpr::eval / to_wasmencoder_type (constant expressions) are not under contract: only the bit-exactness of the float / v128 wrappers they use is proved"],
         "design_ref": "DESIGN.md §4 K1 K4, §5 C02",
-        "level_text": "Instructions survive encode's in-place id rewrite when nothing was edited (identity maps leave every operator unchanged: corollary of the exact remap contract), value types survive the IR, float / v128 constants keep their bits. Of the sections, the ENCODE side is under contract region by region (every stored type group, import, function type index, table, memory, tag, global, export, start function, element segment, function body, data segment and custom section is emitted in stored order with its own contents); of the PARSE side the tag, export and element arms are under contract (the IR holds exactly what the section readers yield, in order), the other arms are glue.",
+        "level_text": "Instructions survive encode's in-place id rewrite when nothing was edited (identity maps leave every operator unchanged: corollary of the exact remap contract), value types survive the IR, float / v128 constants keep their bits. Of the sections, the ENCODE side is under contract region by region (every stored type group, import, function type index, table, memory, tag, global, export, start function, element segment, function body, data segment and custom section is emitted in stored order with its own contents); of the PARSE side the import, tag, export and element arms are under contract (the IR holds exactly what the section readers yield, in order), the other arms are glue.",
     },
     "C03": {
         "title": "Parsing never panics",
